@@ -70,6 +70,16 @@ def run(ctx, rep):
             rep.stat('nonconstant' if len(set(d1)) > 1 else 'constant')
         rep.stat('text' if isinstance(v, str) else 'list')
         rep.case(key=p1, nontrivial=True, sample={'value': v, 'printed': p1} if len(p1) > 30 else None)
+    # a rule that is one leaf prints as itself, and its printed form parses to a check of the same class (a remote check
+    # must not come back as an attribute check, or the two would decide differently)
+    for l in LEAVES:
+        t1 = _parser.parse_rule(l)
+        p1 = str(t1)
+        t2 = _parser.parse_rule(p1)
+        if p1 != l or type(t1) is not type(t2) or str(t2) != p1:
+            rep.fail('c15leaf:%r' % (l,), 'leaf %r parses to %s printing %r, which parses to %s printing %r'
+                     % (l, type(t1).__name__, p1, type(t2).__name__, str(t2)), {'leaf': l})
+        rep.case(key='leaf' + l, nontrivial=True)
     _rule_sets(ctx, rep, enf, [v for v in values if 'http' not in json.dumps(v)])
     _rule_default_eq(ctx, rep, values)
 
